@@ -385,3 +385,18 @@ Proof.
   intros d c a b. rewrite !batch_rows_exact. unfold split_lines. rewrite split_lines_aux_cut.
   apply flat_map_app.
 Qed.
+
+(* the repaired scaling never stores another instant than the one written *)
+Lemma scale_row_repaired_exact : forall mult r r',
+  scale_row cfg_repaired mult r = Ok r' ->
+  r_name r' = r_name r /\ r_tags r' = r_tags r /\ r_fields r' = r_fields r /\
+  match r_ts r with
+  | None => r_ts r' = None
+  | Some t => r_ts r' = Some (t * mult) /\ t * mult <= max_int64
+  end.
+Proof.
+  intros mult r r' H. unfold scale_row in H. destruct (r_ts r) as [t|] eqn:E.
+  - cbn [cfg_repaired c_tswrap] in H. destruct (t * mult <=? max_int64) eqn:L; [|discriminate].
+    inversion H; subst. cbn. apply Z.leb_le in L. auto.
+  - inversion H; subst. rewrite E. auto.
+Qed.
